@@ -15,13 +15,11 @@ symbolic reasoning about the spaces in which finite elements lie.
 # Modified by Lizao Li 2015
 # Modified by Thomas Gibson 2017
 
-from functools import total_ordering
 from math import inf, isinf
 
 __all_classes__ = ["SobolevSpace", "DirectionalSobolevSpace"]
 
 
-@total_ordering
 class SobolevSpace:
     """Symbolic representation of a Sobolev space.
 
@@ -85,14 +83,25 @@ class SobolevSpace:
                 "Unable to test for inclusion of a SobolevSpace in another SobolevSpace. "
                 "Did you mean to use <= instead?"
             )
-        return other.sobolev_space == self or self in other.sobolev_space.parents
+        return other.sobolev_space <= self
 
     def __lt__(self, other):
         """In common with intrinsic Python sets, < indicates "is a proper subset of"."""
-        return other in self.parents
+        return _is_proper_subspace(self, other)
+
+    def __gt__(self, other):
+        """In common with intrinsic Python sets, > indicates "is a proper superset of"."""
+        return _is_proper_subspace(other, self)
+
+    def __le__(self, other):
+        """In common with intrinsic Python sets, <= indicates "is a subset of"."""
+        return bool(self == other) or _is_proper_subspace(self, other)
+
+    def __ge__(self, other):
+        """In common with intrinsic Python sets, >= indicates "is a superset of"."""
+        return bool(self == other) or _is_proper_subspace(other, self)
 
 
-@total_ordering
 class DirectionalSobolevSpace(SobolevSpace):
     """Directional Sobolev space.
 
@@ -124,45 +133,43 @@ class DirectionalSobolevSpace(SobolevSpace):
         spaces = {0: L2, 1: H1, 2: H2, 3: H3, inf: HInf}
         return spaces[self._orders[spatial_index]]
 
-    def __contains__(self, other):
-        """Check if one space is contained in another.
-
-        Implement `fe in s` where `fe` is a FiniteElement and `s` is a
-        DirectionalSobolevSpace.
-        """
-        if isinstance(other, SobolevSpace):
-            raise TypeError(
-                "Unable to test for inclusion of a SobolevSpace in another SobolevSpace. "
-                "Did you mean to use <= instead?"
-            )
-        return other.sobolev_space == self or all(
-            self[i] in other.sobolev_space.parents for i in self._spatial_indices
-        )
-
     def __eq__(self, other):
         """Check equality."""
         if isinstance(other, DirectionalSobolevSpace):
             return self._orders == other._orders
         return all(self[i] == other for i in self._spatial_indices)
 
-    def __lt__(self, other):
-        """In common with intrinsic Python sets, < indicates "is a proper subset of."""
-        if isinstance(other, DirectionalSobolevSpace):
-            if self._spatial_indices != other._spatial_indices:
-                return False
-            return any(self._orders[i] > other._orders[i] for i in self._spatial_indices)
-
-        if other in [HDiv, HCurl]:
-            return all(self._orders[i] >= 1 for i in self._spatial_indices)
-        elif other.name in ["HDivDiv", "HEin", "HCurlDiv"]:
-            # Don't know how these spaces compare
-            return NotImplementedError(f"Don't know how to compare with {other.name}")
-        else:
-            return any(self._orders[i] > other._order for i in self._spatial_indices)
-
     def __str__(self):
         """Format as a string."""
         return f"{self.name}({', '.join(map(str, self._orders))})"
+
+
+def _is_subspace(a, b):
+    """Check if the named space a is b or a subspace of b."""
+    return a.name == b.name or b in a.parents
+
+
+def _is_proper_subspace(a, b):
+    """Check if the Sobolev space a is a proper subspace of the Sobolev space b."""
+    a_directional = isinstance(a, DirectionalSobolevSpace)
+    b_directional = isinstance(b, DirectionalSobolevSpace)
+    if not a_directional and not b_directional:
+        return b in a.parents
+    if a_directional and b_directional:
+        if a._spatial_indices != b._spatial_indices:
+            return False
+        return all(a._orders[i] >= b._orders[i] for i in a._spatial_indices) and any(
+            a._orders[i] > b._orders[i] for i in a._spatial_indices
+        )
+    named = b if a_directional else a
+    if named.name in ["HDivDiv", "HEin", "HCurlDiv"]:
+        # Don't know how these spaces compare
+        raise NotImplementedError(f"Don't know how to compare with {named.name}")
+    if a_directional:
+        # Every directional component of a must be at least as smooth as b
+        return not a == b and all(_is_subspace(a[i], b) for i in a._spatial_indices)
+    # a must be at least as smooth as every directional component of b
+    return not b == a and all(_is_subspace(a, b[i]) for i in b._spatial_indices)
 
 
 L2 = SobolevSpace("L2")
